@@ -93,9 +93,12 @@ func judgeC23(c c23Case) []Violation {
 	fl, _ = fs.Create("/w")
 	fl.Close()
 	w := newWorldOn(fs, SrvCfg{Transfer: c.Transfer, AttrTTL: 1})
+	w.noTrace = true // megabyte payloads: the model-compared twin below uses small ones
 	defer w.Close()
+	defer c23Twin(c)
 	if c.Runtime != 0 {
 		w.srv.NFS.UpdateTuningOptions(func(t *absnfs.TuningOptions) { t.TransferSize = c.Runtime })
+		w.tr(fmt.Sprintf("srv transfer %d", w.srv.NFS.GetExportOptions().TransferSize), "ok")
 	}
 	cred := rootCred()
 	_, info := w.nfs(19, cred, fh(w.root))
@@ -175,6 +178,11 @@ func judgeC23(c c23Case) []Violation {
 }
 
 func checkC23(r *Result, rng *rand.Rand, thorough bool) {
+	traces, doneTraces := collectTraces(200)
+	defer func() {
+		doneTraces()
+		compareSrv(r, "srv", *traces)
+	}()
 	sizes := []int{0, -5, 1, 512, 1024, 4096, 65536, 65537, 100000, 1 << 20, 1<<20 + 1, 2 << 20, 16 << 20}
 	r.Rule = "for TransferSize in {unset, negative, 1, 512, 1K, 4K, 64K, 64K+1, 100000, 1M, 1M+1, 2M, 16M} x {at construction, set at runtime} x {in-process, real record-marking TCP}: FSINFO, then READ and WRITE with counts 1, pref, max, max-1, max/2+1 and random counts up to the advertised maxima"
 	n := 0
@@ -219,4 +227,27 @@ func checkC23(r *Result, rng *rand.Rand, thorough bool) {
 		}
 	}
 	r.sample(fmt.Sprint(sizes))
+}
+
+// c23Twin: the same configuration on a small file with small counts, traced for the Lean model (FSINFO body,
+// READ/WRITE clamping against TransferSize).
+func c23Twin(c c23Case) {
+	fs := NewRefFS()
+	seedFS(fs, []string{"file /big " + hx(make([]byte, 3000)), "file /w"})
+	w := newWorldOn(fs, SrvCfg{Transfer: c.Transfer, AttrTTL: 1})
+	defer w.Close()
+	if c.Runtime != 0 {
+		w.srv.NFS.UpdateTuningOptions(func(t *absnfs.TuningOptions) { t.TransferSize = c.Runtime })
+		w.tr(fmt.Sprintf("srv transfer %d", w.srv.NFS.GetExportOptions().TransferSize), "ok")
+	}
+	cred := rootCred()
+	w.nfs(19, cred, fh(w.root))
+	bh, _ := w.handleFor("/big", cred)
+	wh, _ := w.handleFor("/w", cred)
+	for _, n := range []uint32{1, 100, 511, 512, 513, 1024, 2000, 4096} {
+		w.nfs(6, cred, argRead(bh, 0, n))
+		if n <= 2000 {
+			w.nfs(7, cred, argWrite(wh, 0, n, 2, make([]byte, n)))
+		}
+	}
 }
